@@ -49,10 +49,10 @@ Qed.
 (* the correspondence check means: the recorded trace is a run of the LTS from the observed switch-over state *)
 Lemma cmodel_ok_run c : cmodel_ok c = true ->
   exists tr s, cc_trace c = Some tr /\
-               steps (tables_shape (cc_grace c)) (init (cc_early c) (cc_skip c) (cc_kept c)) tr s.
+               steps (tables_shape (cc_grace c)) (cinit c) tr s.
 Proof.
   unfold cmodel_ok. intro H. apply andb_true_iff in H as [_ H].
   destruct (cc_trace c) as [tr|]; [|discriminate].
-  destruct (run (tables_shape (cc_grace c)) (init (cc_early c) (cc_skip c) (cc_kept c)) tr) as [s|] eqn:R; [|discriminate].
+  destruct (run (tables_shape (cc_grace c)) (cinit c) tr) as [s|] eqn:R; [|discriminate].
   exists tr, s. split; [reflexivity|]. apply run_steps. exact R.
 Qed.
